@@ -1006,6 +1006,12 @@ func (db *DB) InsertOrUpdateMany(objects ...Object) (n int, err error) {
 			return
 		}
 
+		// an object which cannot be serialized has to be rejected
+		// here, insertion would fail half way through the batch
+		if _, err = json.Marshal(o); err != nil {
+			return
+		}
+
 		// check that temporary index made of objects to insert
 		// validates object's constraints
 		if err = tmpIndex.insertOrUpdate(o); err != nil {
